@@ -14,6 +14,9 @@
           number of levels between root_path and module_path; None stays None; no offset when the paths coincide
   C09.R5  the limit acts through the truncation only: an import (a module) is withheld from the graph because of the limit only if
           the graph would drop it anyway (both ends flatten to the same node)
+  C09.R6  the constructor evaluated on model modules / imports (absolute and relative, as the concrete Import classes hand them out) and a
+          model of the networkx graph: nodes, import edges and parent-child edges with a limit are the truncated ones of the graph built
+          without a limit; not decided (an observation) when the construction cannot be evaluated
 
 Anchors: the public class `NetworkxGraph` and its constructor signature, the abstract accessors of `Import`, the public functions
 `get_evaluable_architecture*`, the type of the networkx object, literals.  Private helpers are found by role (reachability, data flow,
@@ -220,6 +223,7 @@ class Ctx:
         self.limit_index = names.index(self.limit_param)
         it = elem_type(self.T.param_type(init, self.imports_param))
         self.import_classes = {m[1] for m in members(it) if m[0] == "cls"} or {IMPORT_CLASS}
+        self.pending_unary: list[tuple[str, str, str]] = []
 
     # -- roles -------------------------------------------------------------------------------------
     def is_graph(self, f: FuncInfo, e: ast.AST) -> bool:
@@ -610,8 +614,14 @@ class Flattening:
         dependent = any(rows[(rnd, lim)][:2] != rows[(rnd, None)][:2] for rnd in rounds for lim in LIMITS)
         if not dependent:
             return {"verdict": "independent"}
-        if all(r[0] == "other" and isinstance(r[3], bool) for r in rows.values()):
-            return self._classify_predicate(rows)
+        limited = {k: r for k, r in rows.items() if k[1] is not None}
+        if all(r[0] == "other" and isinstance(r[3], bool) for r in rows.values()) or (
+            # a test that is only evaluated (only evaluable) when a limit is set: `name.count(".") > self._level_limit`
+            all(r[0] == "other" and isinstance(r[3], bool) for r in limited.values()) and all(r[0] == "raise" for k, r in rows.items() if k[1] is None)
+        ):
+            if self._name_arity(f, e, flow) < 2:
+                return {"verdict": "predicate-unary"}
+            return self._classify_predicate(rows if all(r[0] == "other" for r in rows.values()) else limited)
 
         def origin(rnd: int) -> str:
             if rnd < len(NAME_POOL) or not self.records:
@@ -647,6 +657,16 @@ class Flattening:
             # the verdict rests on the idealised model of the parents lists, and the real classes could not be tabulated
             return {"verdict": "unknown", "why": "the node names are derived from the parents lists of an Import, and what the Import classes return there cannot be tabulated (" + "; ".join(self.records_failed[:2]) + ")"}
         return {"verdict": "cut-only" if cut_only else "flatten", "squeezed": squeezed}
+
+    def _name_arity(self, f: FuncInfo, e: ast.expr, flow: Flow) -> int:
+        """How many different names (raw / flattened variables, accessors of an import) a test speaks about."""
+        seen: set[str] = set()
+        for n in ast.walk(e):
+            if isinstance(n, ast.Attribute) and isinstance(n.value, ast.Name) and self.cx.is_import_value(f, n.value):
+                seen.add(f"{n.value.id}.{n.attr}")
+            elif isinstance(n, ast.Name) and isinstance(n.ctx, ast.Load) and not self.cx.is_import_value(f, n) and set(flow.tags(n)) & {"RAW", "FLAT"}:
+                seen.add(n.id)
+        return len(seen)
 
     @staticmethod
     def _classify_predicate(rows: dict) -> dict:
@@ -821,7 +841,8 @@ def rule_r1_r3(cx: Ctx, cons: list[FuncInfo]) -> Flow:
                     where(f, e), kind="decision-table",
                 )
             else:
-                res.undecide("C09.R2", pkey, f"`{norm(e, 70)}` is a test on a name that depends on the level limit; its role in the construction is not understood", where(f, e))
+                # what such a test makes the construction keep or drop is judged by the construction table (C09.R6) when it can be evaluated
+                cx.pending_unary.append((pkey, f"`{norm(e, 70)}` is a test on a name that depends on the level limit; its role in the construction is not understood", where(f, e)))
             continue
         tg = fl.targets(f, e)
         owner = tg[0] if len(tg) == 1 else f
@@ -967,6 +988,7 @@ def rule_r1_r3(cx: Ctx, cons: list[FuncInfo]) -> Flow:
         # nothing in the construction code depends on the limit at all: the limit is ignored
         lim_used = bool(fl.carriers) or stray_limit
         res.add("C09.R3", f"{cx.g.module.relpath}::{cx.g.name}::the limit reaches a truncation", False, "the level limit " + ("is stored but never applied to a node name" if lim_used else "is ignored by the graph") + ": the graph is not flattened", where(cx.init, cx.init.node), kind="flow")
+    cx.import_records = fl.records
     return flow
 
 
@@ -1171,6 +1193,205 @@ def rule_r2(cx: Ctx, cons: list[FuncInfo], flow: Flow) -> None:
                     continue
                 res.add("C09.R2", key, bool(ok), "only pairs of different (flattened) nodes are inserted" if ok else f"`{norm(node, 70)}` inserts pairs without testing that the two ends differ: collapsed sub modules import 'themselves'", where(f, node), kind="dominance")
     res.floor("C09.R2", 1, n)
+
+
+# --------------------------------------------------------------------------- R6: the construction, tabulated on a model graph
+
+
+class ModelGraph:
+    """A model of `networkx.DiGraph` (nodes, edges, attribute dicts; insertion-ordered) on which the constructor is evaluated."""
+
+    def __init__(self) -> None:
+        self.nodes: dict = {}
+        self.edges: dict = {}
+        self.unreliable: str | None = None
+        m = {
+            "add_node": self.add_node, "add_nodes_from": self.add_nodes_from, "add_edge": self.add_edge, "add_edges_from": self.add_edges_from,
+            "has_node": self.has_node, "has_edge": self.has_edge, "get_edge_data": self.get_edge_data, "__contains__": self.has_node,
+            "__getitem__": self.adj, "__iter__": lambda: list(self.nodes), "number_of_nodes": lambda: len(self.nodes), "number_of_edges": lambda: len(self.edges),
+            "successors": lambda n: [v for (u, v) in self.edges if u == n], "predecessors": lambda n: [u for (u, v) in self.edges if v == n],
+            "nodes": lambda: list(self.nodes), "edges": lambda: list(self.edges),
+        }
+        self.native = NativeObj("<model of networkx.DiGraph>", m, {}, poison_ok=True)
+
+    def _ok(self, *names: object) -> bool:
+        for n in names:
+            if not isinstance(n, str):
+                self.unreliable = self.unreliable or f"a node that is not a determined name ({n!r}) reaches the graph"
+                return False
+        return True
+
+    def add_node(self, n: object = POISON, **attr: object):
+        if self._ok(n):
+            self.nodes.setdefault(n, {}).update(attr)
+
+    def add_nodes_from(self, it: object = POISON, **attr: object):
+        if it is POISON or isinstance(it, (str, NativeObj, Obj)):
+            self.unreliable = self.unreliable or "add_nodes_from on an undetermined collection"
+            return
+        for n in list(it):  # type: ignore[call-overload]
+            self.add_node(n, **attr)
+
+    def add_edge(self, u: object = POISON, v: object = POISON, **attr: object):
+        if self._ok(u, v):
+            if any(x is POISON for x in attr.values()):
+                self.unreliable = self.unreliable or "an undetermined edge attribute"
+            self.nodes.setdefault(u, {})
+            self.nodes.setdefault(v, {})
+            self.edges.setdefault((u, v), {}).update(attr)
+
+    def add_edges_from(self, it: object = POISON, **attr: object):
+        if it is POISON or isinstance(it, (str, NativeObj, Obj)):
+            self.unreliable = self.unreliable or "add_edges_from on an undetermined collection"
+            return
+        for e in list(it):  # type: ignore[call-overload]
+            if not isinstance(e, (tuple, list)) or len(e) not in (2, 3) or (len(e) == 3 and not isinstance(e[2], dict)):
+                self.unreliable = self.unreliable or "add_edges_from: an element that is not an edge"
+                return
+            self.add_edge(e[0], e[1], **{**attr, **(e[2] if len(e) == 3 else {})})
+
+    def has_node(self, n: object = POISON):
+        return POISON if not self._ok(n) else n in self.nodes
+
+    def has_edge(self, u: object = POISON, v: object = POISON):
+        return POISON if not self._ok(u, v) else (u, v) in self.edges
+
+    def get_edge_data(self, u: object = POISON, v: object = POISON, default: object = None):
+        return POISON if not self._ok(u, v) else self.edges.get((u, v), default)
+
+    def adj(self, n: object = POISON):
+        if not self._ok(n):
+            return POISON
+        if n not in self.nodes:
+            raise Raised("KeyError")
+        return {v: a for (u, v), a in self.edges.items() if u == n}
+
+
+R6_PAIRS = (
+    ("proj.core.api.handlers", "proj.core.api_v2.schema"), ("proj.core.api.handlers.v1", "proj.core.api.models.user"), ("proj.core.db.model", "proj.core.db.models.user"),
+    ("proj.core.util", "proj.core.utils.text"), ("proj.core.api.handlers.v1", "proj.core.api.handlers.v2"), ("proj.a.x", "proj.b.y"), ("proj.core.api.a.b.c", "proj.core.api.a.b.d"),
+    ("proj.ab", "proj.a"), ("proj.b.y", "proj.a.x"), ("proj.core.api_v2.schema", "proj.core.api_v2.schema.types"), ("pkg.one", "proj.core.db"),
+)
+R6_LONE_MODULES = ("proj.lonely.deep.mod.x", "solo")
+
+
+def _related(a: str, b: str) -> bool:
+    return a == b or a.startswith(b + ".") or b.startswith(a + ".")
+
+
+def rule_r6(cx: Ctx, records: list[tuple]) -> bool:
+    """The constructor evaluated on model modules / imports and a model of the networkx graph, once without a limit and once per limit:
+    nodes, import edges and hierarchy edges of the limited graph are those of the full graph with truncated names (self-edges dropped)."""
+    res = cx.res
+    key = f"{cx.g.module.relpath}::{cx.g.name}::the limited graph is the quotient of the full graph (model inputs)"
+    imports: list[NativeObj] = [_model_import(a, b) for a, b in R6_PAIRS]
+    ends: list[tuple[str, str, str]] = [(a, b, "") for a, b in R6_PAIRS]
+    for rec in records[:4]:
+        imports.append(_record_import(rec))
+        ends.append((rec[0], rec[1], f" ({rec[4]}, importee_parent_modules() = {list(rec[3])})"))
+    names: set[str] = set(R6_LONE_MODULES)
+    for a, b, _ in ends:
+        names |= {a, b, *_prefixes(a), *_prefixes(b)}
+    for n in R6_LONE_MODULES:
+        names |= set(_prefixes(n))
+    modules = sorted(names)
+    graphs: dict[object, ModelGraph] = {}
+    created: list[ModelGraph] = []
+
+    def factory(args: list, kwargs: dict):
+        g = ModelGraph()
+        if args or kwargs:
+            g.unreliable = "the networkx graph is created from existing data"
+        created.append(g)
+        return g.native
+
+    def build(ev: Evaluator, lim: object) -> tuple[ModelGraph | None, str | None]:
+        del created[:]
+        before = ev.uncertain_exits
+        try:
+            ev._construct(cx.g, [], {cx.modules_param: list(modules), cx.imports_param: list(imports), cx.limit_param: lim})
+        except (Unknown, Raised) as e:
+            return None, f"the constructor cannot be evaluated for limit {lim}: {e}"
+        if len(created) != 1:
+            return None, f"{len(created)} networkx graphs are created"
+        if created[0].unreliable:
+            return None, created[0].unreliable
+        if ev.uncertain_exits != before:
+            return None, "a condition of the construction cannot be evaluated" + (f" ({'; '.join(ev.notes[-2:])})" if ev.notes else "")
+        return created[0], None
+
+    models = {"networkx.DiGraph": factory, "networkx.classes.digraph.DiGraph": factory}
+    for lim in (None, 1, 2, 3):
+        g_, why = build(Evaluator(cx.repo, tolerant=True, lib_models=models), lim)
+        if g_ is None:
+            res.observe(f"C09.R6: the construction is not tabulated on the model graph ({why}); the other rules decide")
+            return False
+        graphs[lim] = g_
+    full = graphs[None]
+    if not full.nodes or not full.edges:
+        res.observe("C09.R6: the model graph stays empty without a limit; the other rules decide")
+        return False
+
+    def kinds(g: ModelGraph) -> tuple[set, set]:
+        imp = {e for e, a in g.edges.items() if not a.get("inherits")}
+        return imp, set(g.edges) - imp
+
+    imp0, inh0 = kinds(full)
+    for lim in (1, 2, 3):
+        g = graphs[lim]
+        t = lambda x, lim=lim: trunc(x, lim)  # noqa: E731
+        want_nodes = {t(n) for n in full.nodes}
+        problem = None
+        if set(g.nodes) != want_nodes:
+            extra, missing = sorted(set(g.nodes) - want_nodes), sorted(want_nodes - set(g.nodes))
+            problem = f"nodes {missing[:3]} are missing" if missing else f"nodes {extra[:3]} are not truncated names of modules of the full graph"
+        else:
+            impk, inhk = kinds(g)
+            want_imp = {(t(u), t(v)) for u, v in imp0 if t(u) != t(v)}
+            want_inh = {(t(u), t(v)) for u, v in inh0 if t(u) != t(v)}
+            # an import between a module and its own ancestor / descendant shares its node pair with a hierarchy edge: which flag survives is
+            # a matter of insertion order (also without a limit), not of the quotient
+            clash = {e for e in want_imp | impk if _related(*e)}
+            lost, added = sorted(want_imp - impk - clash), sorted(impk - want_imp - clash)
+            if lost:
+                u, v = lost[0]
+                src = next(((a, b, note) for a, b, note in ends if t(a) == u and t(b) == v), None)
+                problem = f"the import edge {u} -> {v} is missing" + (f" although {src[0]} imports {src[1]}{src[2]}" if src else "")
+            elif added:
+                problem = f"there is an import edge {added[0][0]} -> {added[0][1]} that no import of the full graph flattens to"
+            else:
+                lost_h, added_h = sorted(want_inh - inhk - want_imp), sorted(inhk - want_inh - want_imp)
+                if lost_h:
+                    problem = f"the parent-child edge {lost_h[0][0]} -> {lost_h[0][1]} is missing"
+                elif added_h:
+                    problem = f"there is a parent-child edge {added_h[0][0]} -> {added_h[0][1]} that no edge of the full graph flattens to"
+        if problem:
+            res.add(
+                "C09.R6", key, False,
+                f"{GRAPH_CLASS} evaluated on {len(modules)} model modules and {len(imports)} model imports: with level_limit={lim} {problem} - the limited graph is not the full graph with every name truncated to {lim + 1} parts",
+                where(cx.init, cx.init.node), kind="decision-table",
+            )
+            return True
+    # graphs built one after the other in one process (module-level and class-level values persist): each is what it is when built first
+    shared = Evaluator(cx.repo, tolerant=True, lib_models=models)
+    prev = None
+    for lim in (2, None, 1, 3, None):
+        g_, why = build(shared, lim)
+        if g_ is None:
+            res.observe(f"C09.R6: graphs built one after the other are not tabulated ({why})")
+            break
+        ref = graphs[lim]
+        if set(g_.nodes) != set(ref.nodes) or g_.edges != ref.edges:
+            diff = sorted(set(g_.nodes) ^ set(ref.nodes))[:3] or sorted(set(g_.edges) ^ set(ref.edges))[:2] or [e for e in ref.edges if g_.edges.get(e) != ref.edges[e]][:2]
+            res.add(
+                "C09.R6", f"{cx.g.module.relpath}::{cx.g.name}::a graph does not depend on graphs built before it", False,
+                f"{GRAPH_CLASS} with level_limit={lim} built after a graph with level_limit={prev} differs from the same graph built first (e.g. {diff}): something recorded while building one graph is used for the next",
+                where(cx.init, cx.init.node), kind="decision-table",
+            )
+            return True
+        prev = lim
+    res.add("C09.R6", key, True, f"{GRAPH_CLASS} evaluated on {len(modules)} model modules and {len(imports)} model imports (absolute and relative) for limits None, 1, 2, 3: nodes, import edges and parent-child edges of each limited graph are the truncated ones of the full graph", where(cx.init, cx.init.node), kind="decision-table")
+    return True
 
 
 # --------------------------------------------------------------------------- R4: the limit handed to the graph
@@ -1435,6 +1656,12 @@ def run(repo: Repo) -> Result:
     cons = construction_functions(cx)
     flow = rule_r1_r3(cx, cons)
     rule_r2(cx, cons, flow)
+    tabulated = rule_r6(cx, getattr(cx, "import_records", []))
+    for pkey, detail, wh in cx.pending_unary:
+        if tabulated:
+            res.observe(f"C09.R2: {detail} - judged by the construction table (C09.R6)")
+        else:
+            res.undecide("C09.R2", pkey, detail, wh)
     from .c09_r5 import rule_r5
 
     scan_depends = rule_r5(cx)
